@@ -158,6 +158,25 @@ for ename, enabled in enabled_values().items():
     REPORT["items"]["ensure/descriptor/" + ename] = {
         "same": dec is raw_static2, "vars_unchanged": True, "ok": run_call(lambda: HoldsStatic2.m(1)), "bad": run_call(lambda: HoldsStatic2.m(-1))}
 
+    # ---- a (possibly disabled) ensure + snapshot pair above a cheap precondition that is always enabled: when the pair is disabled it is
+    # absent - the function keeps the checker of the precondition and nothing else
+    def f_mixed(x):
+        probe("body", None)
+        return x
+
+    inner = icontract.require(lambda x: x > -100, enabled=True)(f_mixed)
+    try:
+        inner2 = icontract.ensure(post_old, **kw(enabled))(inner)
+        dec = icontract.snapshot(snap_x, **kw(enabled))(inner2)
+    except BaseException as err:  # pylint: disable=broad-except
+        REPORT["items"]["ensure+snapshot/above-enabled-require/" + ename] = {
+            "same": False, "vars_unchanged": False, "decoration_error": "{}: {}".format(type(err).__name__, err),
+            "ok": {"outcome": "raise", "type": type(err).__name__, "message": "decoration failed", "events": []},
+            "bad": {"outcome": "raise", "type": type(err).__name__, "message": "decoration failed", "events": []}}
+    else:
+        REPORT["items"]["ensure+snapshot/above-enabled-require/" + ename] = {
+            "same": dec is inner2 and inner2 is inner, "vars_unchanged": True, "ok": run_call(dec, 1), "bad": run_call(dec, -1)}
+
     # ---- async function
     async def f_async(x):
         probe("body", None)
